@@ -69,7 +69,7 @@ func keyOfSpec(p world.PodSpec) *util.KeyObj {
 }
 
 func oracleC02(h *HistSys, hist []Op, w *world.World, obs Obs) *Finding {
-	if obs.Op.Kind != "sched" {
+	if !isSched(obs.Op.Kind) {
 		return nil
 	}
 	if f := oracleC02AtFilter(h, hist, w, obs); f != nil {
@@ -159,7 +159,7 @@ func c02Model(h *HistSys, hist []Op, w *world.World) (*Finding, string) {
 					}
 				}
 			}
-		case "sched":
+		case "sched", "schedcf":
 			if o.Err != "" || len(o.IPs) == 0 {
 				break
 			}
@@ -224,7 +224,7 @@ func c02Model(h *HistSys, hist []Op, w *world.World) (*Finding, string) {
 }
 
 func oracleC02AtFilter(h *HistSys, hist []Op, w *world.World, obs Obs) *Finding {
-	if obs.Op.Kind != "sched" {
+	if !isSched(obs.Op.Kind) {
 		return nil
 	}
 	pol := h.Class.Policy
